@@ -18,6 +18,9 @@ func runFixed(t *testing.T, check string, prog program) {
 	if res.Kind != "" {
 		pl := prog.sample().(map[string]any)
 		pl["kind"], pl["observed"], pl["trace"] = res.Kind, res.Violation, res.Trace
+		if res.Goroutines != "" {
+			pl["goroutines_at_hang"] = res.Goroutines
+		}
 		stats.Violation(check, pl)
 		t.Fatalf("%s: %s\nsteps:\n  %s\ntrace:\n  %s", res.Kind, res.Violation, joinLines(prog.stepStrings()), joinLines(res.Trace))
 	}
@@ -116,10 +119,10 @@ func TestSubmitShutdownRace(t *testing.T) {
 			stats.Violation(check, map[string]any{"trial": i, "observed": msg, "counter": wp.PendingTasksCounter.Get(), "accepted": inc.Load(), "ran": ran.Load()})
 			t.Fatalf("trial %d: %s (counter=%d accepted=%d ran=%d)", i, msg, wp.PendingTasksCounter.Get(), inc.Load(), ran.Load())
 		}
-		if !ctl.WaitChan(submitted, ctl.HangTimeout) {
+		if !waitHang(submitted) {
 			fail("Submit did not return")
 		}
-		if !ctl.Within(ctl.HangTimeout, wp.ShutdownComplete.Wait) {
+		if !withinHang(wp.ShutdownComplete.Wait) {
 			fail("Shutdown; ShutdownComplete.Wait did not return")
 		}
 		if c := wp.PendingTasksCounter.Get(); c != 0 || inc.Load() != ran.Load() {
